@@ -20,6 +20,9 @@ pub struct Case {
     pub content_seed: u64,
     /// if Some, the content seed is advanced until the info-hash contains this byte
     pub want_byte: Option<u8>,
+    /// wire sub only: the tracker fails this many announces (HTTP 503) before it answers; every request is checked
+    #[serde(default)]
+    pub fail_first: u8,
 }
 
 pub const SPECIAL: &[u8] = &[0x00, b'&', b'%', b'+', b'=', b' ', 0xff, b'?', b'#', b'/', 0x80, b';', b'~', b'*', b'-', b'.', b'_', 0x7f, b'\n'];
@@ -42,8 +45,9 @@ fn strategy(wire: bool) -> BoxedStrategy<Case> {
         "[A-Za-z0-9]{20}",
         any::<u64>(),
         prop_oneof![1 => Just(None), 2 => prop::sample::select(SPECIAL.to_vec()).prop_map(Some), 1 => any::<u8>().prop_map(Some)],
+        if wire { prop_oneof![9 => Just(0u8), 1 => 1u8..=2].boxed() } else { Just(0u8).boxed() },
     )
-        .prop_map(|(host, port, path, query, total_len, own_id, content_seed, want_byte)| Case { host, port, path, query, total_len, own_id, content_seed, want_byte })
+        .prop_map(|(host, port, path, query, total_len, own_id, content_seed, want_byte, fail_first)| Case { host, port, path, query, total_len, own_id, content_seed, want_byte, fail_first })
         .boxed()
 }
 
@@ -217,7 +221,7 @@ pub fn check_pure(c: &Case) -> Outcome {
 pub fn check_wire(c: &Case) -> Outcome {
     use tokio::io::{AsyncReadExt, AsyncWriteExt};
     let mut o = Outcome::new();
-    let res: Result<(String, String, [u8; 20], bool), String> = rt::block_on(async {
+    let res: Result<(Vec<String>, String, [u8; 20], bool), String> = rt::block_on(async {
         let listener = tokio::net::TcpListener::bind("127.0.0.1:0").await.map_err(|e| e.to_string())?;
         let port = listener.local_addr().unwrap().port();
         let announce = announce_url(c, Some(port));
@@ -226,37 +230,54 @@ pub fn check_wire(c: &Case) -> Outcome {
         id.copy_from_slice(c.own_id.as_bytes());
         let (tx, mut rx) = tokio::sync::mpsc::channel(8);
         let mut client = rdest::TrackerClient::new(&id, m, tx);
+        let fail_first = c.fail_first as usize;
         let server = async {
-            let (mut s, _) = listener.accept().await.map_err(|e| e.to_string())?;
-            let mut buf = vec![];
-            let mut tmp = [0u8; 4096];
-            while !buf.windows(4).any(|w| w == b"\r\n\r\n") {
-                let n = s.read(&mut tmp).await.map_err(|e| e.to_string())?;
-                if n == 0 {
-                    break;
+            let mut all: Vec<Vec<u8>> = vec![];
+            for k in 0..=fail_first {
+                let (mut s, _) = listener.accept().await.map_err(|e| e.to_string())?;
+                let mut buf = vec![];
+                let mut tmp = [0u8; 4096];
+                while !buf.windows(4).any(|w| w == b"\r\n\r\n") {
+                    let n = s.read(&mut tmp).await.map_err(|e| e.to_string())?;
+                    if n == 0 {
+                        break;
+                    }
+                    buf.extend_from_slice(&tmp[..n]);
                 }
-                buf.extend_from_slice(&tmp[..n]);
+                if k < fail_first {
+                    let _ = s.write_all(b"HTTP/1.1 503 Service Unavailable\r\nContent-Length: 0\r\nConnection: close\r\n\r\n").await;
+                } else {
+                    let body = b"d8:intervali1800e5:peerslee";
+                    let resp = format!("HTTP/1.1 200 OK\r\nContent-Length: {}\r\nConnection: close\r\n\r\n", body.len());
+                    let _ = s.write_all(resp.as_bytes()).await;
+                    let _ = s.write_all(body).await;
+                }
+                let _ = s.shutdown().await;
+                all.push(buf);
             }
-            let body = b"d8:intervali1800e5:peerslee";
-            let resp = format!("HTTP/1.1 200 OK\r\nContent-Length: {}\r\nConnection: close\r\n\r\n", body.len());
-            let _ = s.write_all(resp.as_bytes()).await;
-            let _ = s.write_all(body).await;
-            let _ = s.shutdown().await;
-            Ok::<Vec<u8>, String>(buf)
+            Ok::<Vec<Vec<u8>>, String>(all)
         };
         let run = async {
             tokio::time::timeout(std::time::Duration::from_secs(20), client.run()).await.is_ok()
         };
-        let (req, finished) = tokio::join!(server, run);
-        let req = req?;
-        let got = matches!(rx.try_recv(), Ok(rdest::verif::TrackerCmd::TrackerResp(_)));
-        let text = String::from_utf8_lossy(&req).to_string();
-        let line = text.lines().next().unwrap_or("").to_string();
-        let hostline = text.lines().find(|l| l.to_ascii_lowercase().starts_with("host:")).unwrap_or("").to_string();
+        let (reqs, finished) = tokio::join!(server, run);
+        let reqs = reqs?;
+        // the last command must be the good reply (failures come first)
+        let mut got = false;
+        while let Ok(cmd) = rx.try_recv() {
+            got = matches!(cmd, rdest::verif::TrackerCmd::TrackerResp(_));
+        }
+        let mut lines = vec![];
+        let mut hostline = String::new();
+        for req in &reqs {
+            let text = String::from_utf8_lossy(req).to_string();
+            lines.push(text.lines().next().unwrap_or("").to_string());
+            hostline = text.lines().find(|l| l.to_ascii_lowercase().starts_with("host:")).unwrap_or("").to_string();
+        }
         let _ = announce;
-        Ok((line, format!("{}|{}", hostline, port), hash, finished && got))
+        Ok((lines, format!("{}|{}", hostline, port), hash, finished && got))
     });
-    let (line, hostinfo, hash, delivered) = match res {
+    let (lines, hostinfo, hash, delivered) = match res {
         Ok(x) => x,
         Err(e) => {
             o.fail("harness-wire-error", format!("loopback tracker failed: {}", e));
@@ -264,12 +285,20 @@ pub fn check_wire(c: &Case) -> Outcome {
         }
     };
     classify(c, &hash, &mut o);
-    let parts: Vec<&str> = line.split(' ').collect();
-    if parts.len() != 3 || parts[0] != "GET" {
-        o.fail("request-line", format!("unexpected request line {:?}", line));
-        return o;
+    o.class_if(c.fail_first > 0, "announce-repeated-after-failure");
+    for (k, line) in lines.iter().enumerate() {
+        let parts: Vec<&str> = line.split(' ').collect();
+        if parts.len() != 3 || parts[0] != "GET" {
+            o.fail("request-line", format!("unexpected request line {:?}", line));
+            return o;
+        }
+        let before = o.fails.len();
+        check_query(c, &hash, parts[1], true, &mut o);
+        if o.fails.len() > before && k > 0 {
+            let f = o.fails.last_mut().unwrap();
+            f.detail = format!("(announce #{} after {} failed ones) {}", k + 1, k, f.detail);
+        }
     }
-    check_query(c, &hash, parts[1], true, &mut o);
     let (hostline, port) = hostinfo.split_once('|').unwrap();
     let want = format!("127.0.0.1:{}", port);
     if !hostline.to_ascii_lowercase().ends_with(&want) {
@@ -284,7 +313,7 @@ pub fn check_wire(c: &Case) -> Outcome {
 pub fn def() -> PropDef {
     PropDef {
         id: "C18",
-        rule: "a torrent with generated content (so the info-hash is a uniformly random 20-byte string; two thirds of the cases are steered until the hash contains a chosen special byte such as NUL & % + = space 0xff), an alphanumeric 20-byte peer id, an announce URL with/without port and path, with 0-2 existing query parameters or a trailing '?', total length 0..2^40. Sub url: TrackerClient::create_url (hook) is split at the first '?' and at '&': host/port/path unchanged, every pre-existing parameter still its own parameter, exactly one info_hash whose form-urlencoded decoding (decoder written in the harness) is the 20 hash bytes. Sub wire: the real TrackerClient::run against a loopback HTTP listener; the request line must satisfy the same and carry peer_id, port=6881, left=total length; a valid reply must come back as TrackerCmd::TrackerResp. Non-trivial = hash has a byte that needs escaping or the announce URL has a query; distinct by hash of the case.",
+        rule: "a torrent with generated content (so the info-hash is a uniformly random 20-byte string; two thirds of the cases are steered until the hash contains a chosen special byte such as NUL & % + = space 0xff), an alphanumeric 20-byte peer id, an announce URL with/without port and path, with 0-2 existing query parameters or a trailing '?', total length 0..2^40. Sub url: TrackerClient::create_url (hook) is split at the first '?' and at '&': host/port/path unchanged, every pre-existing parameter still its own parameter, exactly one info_hash whose form-urlencoded decoding (decoder written in the harness) is the 20 hash bytes. Sub wire: the real TrackerClient::run against a loopback HTTP listener that may answer 503 to the first one or two announces (every request, also the repeated ones, is checked); the request line must satisfy the same and carry peer_id, port=6881, left=total length; a valid reply must come back as TrackerCmd::TrackerResp. Non-trivial = hash has a byte that needs escaping or the announce URL has a query; distinct by hash of the case.",
         assumptions: &["peer ids are alphanumeric (the property's domain; TrackerClient unwraps from_utf8 on the id)"],
         subs: vec![
             Sub {
@@ -297,9 +326,9 @@ pub fn def() -> PropDef {
             Sub {
                 name: "wire",
                 cases: |t| t.pick(800, 15_000),
-                run: |ctx| run_proptest(ctx, "wire", strategy(true), check_wire),
+                run: |ctx| run_proptest_cfg(ctx, "wire", strategy(true), check_wire, 40),
                 replay: |v| replay_case::<Case>(v, check_wire),
-                min_class: &[("announce-with-query", 0.2047), ("hash-with-special-byte", 0.4422), ("existing-key-contains-client-parameter-name", 0.1)],
+                min_class: &[("announce-with-query", 0.2047), ("hash-with-special-byte", 0.4422), ("existing-key-contains-client-parameter-name", 0.1), ("announce-repeated-after-failure", 0.04)],
             },
         ],
     }
